@@ -42,6 +42,7 @@ type busLog struct {
 	queueBody []string
 	// bad-thermal-frame events offered / refused by the fake event service
 	badAddCalls, failedAdds int
+	queueCalls              int
 }
 
 type fakeLeptond struct{ l *busLog }
@@ -79,6 +80,12 @@ func (f fakeEvents) Add(details string, typ string, ts int64) *dbus.Error {
 }
 func (f fakeEvents) Queue(details []byte, ts int64) *dbus.Error {
 	f.l.mu.Lock()
+	f.l.queueCalls++
+	if f.l.queueCalls == 1 {
+		// the event service refuses the first throttle event; later ones must still be delivered
+		f.l.mu.Unlock()
+		return dbus.MakeFailedError(errors.New("verif: event queue unavailable"))
+	}
 	f.l.queues++
 	f.l.queueBody = append(f.l.queueBody, string(details))
 	f.l.mu.Unlock()
@@ -336,7 +343,7 @@ func TestVerif_Daemon(t *testing.T) {
 		c.Count("daemon_restart_calls", int64(restarts))
 		// throttling: bucket 4 s = 36 frames, 120 motion frames, refill 1 h => at least one throttle event, never one per frame
 		if queues < 1 || queues > 12 {
-			c.ViolationP("C06", "throttle-events-on-bus", "daemon tier", fmt.Sprintf("120 motion frames against a 36-frame bucket produced %d throttle events on the bus (expected a handful: one per cut or suppressed start)", queues))
+			c.ViolationP("C06", "throttle-events-on-bus", "daemon tier", fmt.Sprintf("120 motion frames against a 36-frame bucket produced %d throttle events on the bus after the first one had been refused by the event service (expected a handful: one per cut or suppressed start)", queues))
 		}
 		c.Count("daemon_throttle_events", int64(queues))
 		// start another motion burst and kill in mid-recording
